@@ -2373,7 +2373,14 @@ impl WasmGenerator {
                 func.instruction(&W::Call(self.rt.math_pow));
             }
             I::ModF(a, b) => {
-                // WASM has no native f64 remainder; compute a - trunc(a/b) * b
+                // WASM has no native f64 remainder. The result is
+                //   select(a, r, |b| == inf && |a| < inf)
+                // with r = copysign(|a - trunc(a/b) * b|, a): the remainder takes the sign of
+                // the dividend also when it is zero (the native VM's `%` yields -0.0 for
+                // -7 % 7), and a finite dividend is its own remainder for an infinite divisor
+                // (where the formula alone would yield NaN).
+                self.emit_value_load_typed(a, ValType::F64, func);
+                // r
                 self.emit_value_load_typed(a, ValType::F64, func);
                 self.emit_value_load_typed(a, ValType::F64, func);
                 self.emit_value_load_typed(b, ValType::F64, func);
@@ -2382,6 +2389,20 @@ impl WasmGenerator {
                 self.emit_value_load_typed(b, ValType::F64, func);
                 func.instruction(&W::F64Mul);
                 func.instruction(&W::F64Sub);
+                func.instruction(&W::F64Abs);
+                self.emit_value_load_typed(a, ValType::F64, func);
+                func.instruction(&W::F64Copysign);
+                // condition
+                self.emit_value_load_typed(a, ValType::F64, func);
+                func.instruction(&W::F64Abs);
+                func.instruction(&W::F64Const(f64::INFINITY));
+                func.instruction(&W::F64Lt);
+                self.emit_value_load_typed(b, ValType::F64, func);
+                func.instruction(&W::F64Abs);
+                func.instruction(&W::F64Const(f64::INFINITY));
+                func.instruction(&W::F64Eq);
+                func.instruction(&W::I32And);
+                func.instruction(&W::Select);
             }
 
             // Integer arithmetic operations
